@@ -25,6 +25,12 @@ impl<'k> Str<'k> {
     #[verifier::external_body]
     pub fn to_owned(&self) -> (r: Str<'static>) ensures r.bytes() == self.bytes() { unimplemented!() }
 }
+// str.rs:335 `Str::new_owned(key: impl Into<Box<str>>)`: holds the text `key.into()` is
+pub uninterp spec fn boxed_str_bytes<T>(key: T) -> Seq<u8>;
+impl Str<'static> {
+    #[verifier::external_body]
+    pub fn new_owned<T: Into<Box<str>>>(key: T) -> (r: Self) ensures r.bytes() == boxed_str_bytes(key) { unimplemented!() }
+}
 impl<'k> Clone for Str<'k> {
     #[verifier::external_body]
     fn clone(&self) -> (r: Self) ensures r == *self { Str { v: self.v } }
